@@ -12,6 +12,9 @@ Correspondence (real code vs Model/Rpc.lean, same cases):
            the root and the interface objects x argument tuples with 32-bit edge values; observable = refused /
            arity fault / body entered (sys.setprofile on the method's code object)
   gate     every public method of the real interface in every mood: SHUTDOWN_STATE or not, and whether anything changed
+  addgroup supervisor.addProcessGroup on a REAL daemon (real ServerOptions on a configuration file, real Supervisor and group
+           classes) whose groups cannot always be created: what Supervisor.add_process_group does (added / already active /
+           exception class raised) -> the answer, vs Model/Rpc.lean addProcessGroup (generated except clause addGroupCatches)
   collect  the real medusa body collector and the real channel's header buffer fed byte strings (the bodies of the
            fragmented end-to-end requests as they were cut, valid and damaged UTF-8) in pieces: the text handed on, or the
            exception raised, vs Model/Rpc.lean requestBody / requestHeader
@@ -24,7 +27,12 @@ pieces (headers | body, inside the blank line, inside every multi-byte character
 fragmentation corpus EVERY 2-piece cut of the whole request), as HTTP/1.0 / keep-alive / close / with a UTF-8 header value,
 with bodies larger than the channel's 4096-byte reads, and as the 2nd..4th request of one connection; the answer (HTTP
 status + XML-RPC value or fault code and text) must be a complete well-formed response and the same as for the request
-delivered at once (kinds no-answer-to-fragmented-request, answer-depends-on-fragmentation, answer-depends-on-http-variant,
+delivered at once.  Groups that cannot be created (F48, F49): addProcessGroup / removeProcessGroup / reloadConfig(+add) over the
+wire against a real daemon with an fcgi-program socket in a missing directory / on a busy TCP port, the child log directory
+removed, a ValueError injected into after_setuid()/make_group() of a plain and an event-listener group, in all four moods:
+never an HTTP 500 (http-500:<method>), no exception escaping the direct call (rpc-internal-error:<method>), value of the
+documented shape, answer consistent with the daemon's group table, SHUTDOWN_STATE below RUNNING.
+(Fragmentation kinds: no-answer-to-fragmented-request, answer-depends-on-fragmentation, answer-depends-on-http-variant,
 no-answer-on-reused-connection, answer-depends-on-connection-reuse).
 """
 import errno, inspect, os, re, socket, sys, types
@@ -39,6 +47,7 @@ TRUSTED = [
     "str.split('.') and str.startswith('_') are modelled on character lists (splitDot, head?)",
     "method *bodies* are arbitrary state transformers in the theorems; which faults each real body raises is read off the AST (raisesTable), not proved from the body",
     "xmlrpclib marshalling, the medusa request/producer objects and DeferredXMLRPCResponse are exercised, not modelled: every end-to-end request is sent as HTTP bytes over a socketpair into a real deferring_http_channel (only its server object is a stub) with the real supervisor_xmlrpc_handler installed, and judged on the bytes that come back; modelled and proved are only the Content-Length computation of the two response builders (generated contReq_a9/defResp_a1) and the way in: what the body collector keeps per received piece and hands to continue_request, what the channel's header buffer keeps and decodes (generated collKept/collHanded/chanKept/chanHeader; fragmentation invariance and encode/decode round trip)",
+    "addProcessGroup: Supervisor.add_process_group (after_setuid + make_group of the real configuration classes) is the seam of the model: its three outcomes (added / already active / an exception of some class) are parameters; which classes the RPC method catches and the fault it answers are generated (addGroupCatches, from the AST of the try statement) and Python's exception hierarchy is dumped from the interpreter (excMro); removeProcessGroup and reloadConfig bodies are exercised on the real daemon, not modelled",
     "asynchat's terminator scanning (which bytes of a recv() go to collect_incoming_data in which portions) is exercised through the real channel, not modelled; the invariance theorems hold for EVERY portioning, so they do not depend on it",
     "bytes.decode('utf-8') is modelled by a byte-at-a-time automaton (Unicode table 3-7); its accept/reject decisions and results are compared with CPython's on valid and damaged input (correspondence 'collect')",
     "'never 500 / never hangs / daemon survives' is PARTIAL: proved = refused names and arity errors answer a fault without running anything, gated methods answer SHUTDOWN_STATE, log methods never raise (C16 log_rpc_never_raises), every fault name is in Faults; exercised = the real handler on every public method with arguments of the documented types",
@@ -55,7 +64,10 @@ RULE = ("rec: attribute tables drawn from the kinds {bound method with (min,max)
         "line, inside each multi-byte character, at random into 2..8 pieces, byte at a time; every 2-piece cut for the fragmentation corpus "
         "and a sample of methods with non-ASCII arguments; bodies of 4..16 KB; HTTP/1.0, keep-alive, close, UTF-8 header value; 2..4 requests "
         "on one connection); collect: byte strings (UTF-8 of texts with 1..4-byte characters, damaged by truncation / overlong forms / "
-        "surrogates / stray bytes) x every 2-piece cut, byte at a time, random cuts.  non-trivial = the name resolves or is refused by a "
+        "surrogates / stray bytes) x every 2-piece cut, byte at a time, random cuts; groups: real daemons x {no failure, child log directory "
+        "removed, ValueError injected in after_setuid / make_group} x 4 moods x {program, numprocs program, eventlistener, fcgi-program "
+        "on a missing directory / busy port / good socket, unknown and non-ASCII names} x add-add-remove-remove and random sequences "
+        "with rewritten configuration + reloadConfig.  non-trivial = the name resolves or is refused by a "
         "rule other than 'unknown namespace'; distinct = distinct (table-hash, name, argument count/values, mood)")
 
 EDGES = [0, 1, -1, 2**31 - 1, -2**31, 2**31 - 2, 7]
@@ -1456,6 +1468,262 @@ def run_e2e_deferred(ctx):
 
 
 # =================================================================================================
+# groups whose construction fails: addProcessGroup / removeProcessGroup / reloadConfig on a REAL daemon
+#   real ServerOptions reading a real configuration file, real Supervisor.add_process_group / remove_process_group, real
+#   ProcessGroupConfig / EventListenerPoolConfig / FastCGIGroupConfig and the groups they make; no child is ever started.
+#   Failures come from the environment, not from fakes: the socket of an fcgi-program in a missing directory (F48) or on a
+#   TCP port that is in use, the child log directory gone when the AUTO log files are created; plus a configuration object
+#   whose after_setuid()/make_group() raises ValueError for the plain and the event-listener kinds.
+# =================================================================================================
+GROUP_SCENARIOS = ['plain', 'childlogdir-removed', 'inject-after-setuid', 'inject-make-group']
+GROUP_NAMES = ['plain', 'multi', 'pool', 'fcmissing', 'fcbusy', 'fcok', 'nosuch', 'caf\u00e9']
+
+
+class GroupsWorld:
+    def __init__(self, ctx, scenario, mood, started=('multi',), tag='g'):
+        import io, tempfile
+        from supervisor.options import ServerOptions
+        from supervisor.supervisord import Supervisor
+        from supervisor.rpcinterface import SupervisorNamespaceRPCInterface
+        from supervisor.tests.base import DummyLogger
+        from supervisor import xmlrpc, events
+        events.clear()
+        self.seen = []
+        events.subscribe(events.Event, self.seen.append)
+        self.dir = d = tempfile.mkdtemp(prefix=tag, dir=ctx.scratch)
+        os.mkdir(os.path.join(d, 'logs'))
+        self.busy = socket.socket(socket.AF_INET, socket.SOCK_STREAM)
+        self.busy.bind(('127.0.0.1', 0)); self.busy.listen(1)
+        self.conf = os.path.join(d, 's.conf')
+        self.text = ('[supervisord]\nchildlogdir=%(d)s/logs\nlogfile=%(d)s/sd.log\npidfile=%(d)s/sd.pid\n'
+                     '[program:plain]\ncommand=/bin/cat\n'
+                     '[program:multi]\ncommand=/bin/cat\nnumprocs=2\nprocess_name=%%(program_name)s_%%(process_num)d\n'
+                     '[eventlistener:pool]\ncommand=/bin/cat\nevents=TICK_5\n'
+                     '[fcgi-program:fcmissing]\ncommand=/bin/cat\nsocket=unix://%(d)s/missing-dir/f.sock\n'
+                     '[fcgi-program:fcbusy]\ncommand=/bin/cat\nsocket=tcp://127.0.0.1:%(port)d\n'
+                     '[fcgi-program:fcok]\ncommand=/bin/cat\nsocket=unix://%(d)s/ok.sock\n') % {'d': d, 'port': self.busy.getsockname()[1]}
+        open(self.conf, 'w').write(self.text)
+        o = self.options = ServerOptions()
+        o.configfile = self.conf
+        o.logger = DummyLogger(); o.stderr = io.StringIO(); o.stdout = io.StringIO()
+        o.process_config(do_usage=False)
+        self.sup = Supervisor(o)
+        for c in o.process_group_configs:
+            if c.name in started:
+                self.sup.add_process_group(c)
+        self.scenario = scenario
+        self.apply_scenario()
+        o.mood = mood
+        self.iface = SupervisorNamespaceRPCInterface(self.sup)
+        self.subs = [('supervisor', self.iface)]
+        self.subs.append(('system', xmlrpc.SystemNamespaceRPCInterface(self.subs)))
+        self.handler = xmlrpc.supervisor_xmlrpc_handler(self.sup, self.subs)
+        del self.seen[:]
+
+    def apply_scenario(self):
+        import shutil
+        if self.scenario == 'childlogdir-removed':
+            shutil.rmtree(os.path.join(self.dir, 'logs'))       # (what a /tmp cleaner does to a running daemon)
+        elif self.scenario.startswith('inject-'):
+            def boom(*a, **k):
+                raise ValueError('injected: the group cannot be created')
+            for c in self.options.process_group_configs:
+                if c.name in ('plain', 'pool'):
+                    setattr(c, 'after_setuid' if self.scenario == 'inject-after-setuid' else 'make_group', boom)
+
+    def reread_applied(self):
+        """process_config() builds new configuration objects: the injected failure belongs to the objects"""
+        if self.scenario.startswith('inject-'):
+            self.apply_scenario()
+
+    def state(self):
+        return sorted(self.sup.process_groups)
+
+    def close(self):
+        from supervisor import events
+        events.clear()
+        for g in self.sup.process_groups.values():
+            sm = getattr(g, 'socket_manager', None)
+            try:
+                if sm is not None and getattr(sm, 'socket', None) is not None:
+                    sm.socket.close()
+            except Exception:
+                pass
+        self.busy.close()
+
+
+def shape_ok(method, v):
+    if method in ('supervisor.addProcessGroup', 'supervisor.removeProcessGroup'):
+        return v is True
+    if method == 'supervisor.reloadConfig':
+        return (isinstance(v, list) and len(v) == 1 and isinstance(v[0], list) and len(v[0]) == 3
+                and all(isinstance(x, list) and all(isinstance(n, str) for n in x) for x in v[0]))
+    return True
+
+
+def groups_case(ctx, scenario, mood, ops, started=('multi',)):
+    """a sequence of addProcessGroup / removeProcessGroup / reloadConfig requests to one real daemon over the real XML-RPC
+    path; every answer is a value of the documented shape or a documented fault, agrees with what happened to the
+    daemon's groups, and is what the same call made directly on the interface answers (a twin daemon taken through the same
+    sequence afterwards: supervisor.events is one registry per interpreter, so the two never live at the same time)"""
+    from supervisor import xmlrpc
+    codes = set(v for k, v in vars(xmlrpc.Faults).items() if not k.startswith('_'))
+    inp = {'part': 'groups', 'scenario': scenario, 'mood': mood, 'ops': [list(o) for o in ops], 'started': list(started)}
+    # ---- over the wire
+    w = GroupsWorld(ctx, scenario, mood, started)
+    wire = []
+    try:
+        for k, (method, params) in enumerate(ops):
+            short_m = method.split('.')[-1]
+            if method == 'rewrite':                   # the configuration file changes
+                open(w.conf, 'w').write(w.text + params[0] % {'d': w.dir})
+                wire.append(None); continue
+            before = w.state()
+            del w.seen[:]
+            res = wire_request(w.handler, method, params, replay_input=dict(inp, failing_op=k))
+            out = ('http', res.get('status')) if res.get('status') != 200 else res['answer']
+            after, events_seen = w.state(), len(w.seen)
+            if short_m == 'reloadConfig':
+                w.reread_applied()
+            found = any(c.name == params[0] for c in w.options.process_group_configs) if params else False
+            wire.append((out, found))
+            ctx.count('groups:%s:%s' % (short_m, out[0] + (':%s' % out[1] if out[0] in ('fault', 'http') else '')))
+            ctx.count('groups:scenario=' + scenario)
+            ctx.case_done(('groups', scenario, mood, repr(ops[:k + 1]), tuple(started)), nontrivial=True)
+            what = '%s%s on a daemon in scenario %r, mood %d, groups %r' % (method, short(tuple(params)), scenario, mood, before)
+            vinp = dict(inp, failing_op=k)
+            if out[0] == 'http' and out[1] == 500:
+                ctx.violation('http-500:' + method, '%s produced an HTTP 500' % what, vinp)
+            elif out[0] == 'http':
+                ctx.violation('http-error:' + method, '%s produced HTTP %s' % (what, out[1]), vinp)
+            elif out[0] == 'unparseable':
+                ctx.violation('response-unparseable:' + method, '%s: the response body cannot be parsed (%s)' % (what, out[1]), vinp)
+            elif out[0] == 'fault' and out[1] not in codes:
+                ctx.violation('undocumented-fault-code', '%s answered fault %r' % (what, out[1]), vinp)
+            elif out[0] == 'value' and not shape_ok(method, out[1]):
+                ctx.violation('value-shape:' + method, '%s answered %s' % (what, short(out[1])), vinp)
+            # ---- while shutting down / restarting: SHUTDOWN_STATE and nothing changes
+            if mood < 1 and (out != ('fault', xmlrpc.Faults.SHUTDOWN_STATE) or after != before or events_seen):
+                ctx.violation('ungated-while-shutting-down:' + short_m, '%s answered %r, groups afterwards %r, events %d' % (what, out, after, events_seen), vinp)
+            # ---- the answer agrees with what happened to the daemon's groups
+            if short_m in ('addProcessGroup', 'removeProcessGroup') and mood >= 1:
+                name = params[0]
+                done = (name in after and name not in before) if short_m == 'addProcessGroup' else (name in before and name not in after)
+                if (out == ('value', True)) != done or (out[0] == 'fault' and after != before):
+                    ctx.violation('group-answer-disagrees-with-state:' + short_m, '%s answered %r, groups afterwards %r' % (what, out, after), vinp)
+    finally:
+        w.close()
+    # ---- the same calls made directly on the interface object of a twin daemon
+    t = GroupsWorld(ctx, scenario, mood, started, tag='t')
+    lines = []
+    try:
+        for k, (method, params) in enumerate(ops):
+            short_m = method.split('.')[-1]
+            if method == 'rewrite':
+                open(t.conf, 'w').write(t.text + params[0] % {'d': t.dir})
+                continue
+            out, found = wire[k]
+            what = '%s%s on a daemon in scenario %r, mood %d, groups %r' % (method, short(tuple(params)), scenario, mood, t.state())
+            vinp = dict(inp, failing_op=k)
+            construct = add_seam(t, params[0]) if short_m == 'addProcessGroup' else None
+            try:
+                direct = direct_call(xmlrpc.RootRPCInterface(t.subs), method, params)
+            except Exception as e:
+                direct = ('raised', type(e).__name__)
+                ctx.violation('rpc-internal-error:' + short_m, '%s made directly on the interface: %s escaped the method (%s)'
+                              % (what, type(e).__name__, short(str(e).replace(t.dir, '<dir>'))), vinp)
+            if short_m == 'reloadConfig':
+                t.reread_applied()
+            if out[0] in ('value', 'fault') and direct[0] in ('value', 'fault') and (out[0], out[1] if out[0] == 'fault' else norm_value(out[1])) != (direct[0], direct[1]):
+                ctx.violation('wire-answer-differs-from-direct:' + method, '%s: on the wire %r, the direct call gives %r' % (what, out, direct[:2]), vinp)
+            if construct is not None:
+                lines.append(('addgroup %d %d %s' % (mood, 1 if found else 0, construct),
+                              'value true' if out == ('value', True) else 'fault %s' % out[1] if out[0] == 'fault'
+                              else 'raised ' + (direct[1] if direct[0] == 'raised' else '?')))
+    finally:
+        t.close()
+    return lines
+
+
+def add_seam(t, name):
+    """what Supervisor.add_process_group(config) does for the configured group `name` in the twin daemon's present state,
+    probed on a throw-away copy of its group table: ok1 (added) | ok0 (already there) | raise:<exception class> | -"""
+    cfg = next((c for c in t.options.process_group_configs if c.name == name), None)
+    if cfg is None:
+        return '-'
+    saved = dict(t.sup.process_groups)
+    from supervisor import events
+    cbs = list(events.callbacks)
+    try:
+        r = t.sup.add_process_group(cfg)
+        res = 'ok1' if r else 'ok0'
+    except Exception as e:
+        res = 'raise:' + type(e).__name__
+    for n, g in list(t.sup.process_groups.items()):
+        if n not in saved:
+            sm = getattr(g, 'socket_manager', None)
+            try:
+                g.before_remove()
+                if sm is not None and getattr(sm, 'socket', None) is not None:
+                    sm.socket.close()
+            except Exception:
+                pass
+    t.sup.process_groups.clear(); t.sup.process_groups.update(saved)
+    events.callbacks[:] = cbs
+    return res
+
+
+def gen_group_ops(rng):
+    ops = []
+    for _ in range(rng.randrange(1, 6)):
+        r = rng.random()
+        if r < 0.55:
+            ops.append(('supervisor.addProcessGroup', [rng.choice(GROUP_NAMES)]))
+        elif r < 0.8:
+            ops.append(('supervisor.removeProcessGroup', [rng.choice(GROUP_NAMES)]))
+        elif r < 0.9:
+            ops.append(('supervisor.reloadConfig', []))
+        else:
+            extra = rng.choice(['[fcgi-program:late]\ncommand=/bin/cat\nsocket=unix://%(d)s/nodir/late.sock\n',
+                                '[program:late]\ncommand=/bin/cat\n', '[eventlistener:late]\ncommand=/bin/cat\nevents=TICK_60\n',
+                                'garbage\n', '[program:late]\ncommand=/bin/cat\nnumprocs=x\n'])
+            ops += [('rewrite', [extra]), ('supervisor.reloadConfig', []), ('supervisor.addProcessGroup', ['late'])]
+    return ops
+
+
+def run_groups(ctx):
+    rng = ctx.rng
+    cases, lines = [], []
+    # ---- regression corpus: F48 (fixed in 076788a) -- addProcessGroup of an fcgi-program whose socket cannot be bound
+    from supervisor import xmlrpc
+    lines += groups_case(ctx, 'plain', 1, [('supervisor.addProcessGroup', ['fcmissing'])])
+    lines += groups_case(ctx, 'plain', 1, [('rewrite', ['[fcgi-program:late]\ncommand=/bin/cat\nsocket=unix://%(d)s/nodir/late.sock\n']),
+                                           ('supervisor.reloadConfig', []), ('supervisor.addProcessGroup', ['late'])])
+    # ---- regression corpus: F49 (fixed in 4afb3d2) -- the child log directory is gone when the AUTO logs of the group are created
+    lines += groups_case(ctx, 'childlogdir-removed', 1, [('supervisor.addProcessGroup', ['plain'])], started=())
+    lines += groups_case(ctx, 'childlogdir-removed', 2, [('supervisor.addProcessGroup', ['pool']), ('supervisor.addProcessGroup', ['fcok'])], started=())
+    # ---- every scenario x every mood x every group kind: add, add again, remove, remove again
+    for scenario in GROUP_SCENARIOS:
+        for mood in (1, 2, 0, -1):
+            for name in GROUP_NAMES:
+                lines += groups_case(ctx, scenario, mood, [('supervisor.addProcessGroup', [name]), ('supervisor.addProcessGroup', [name]),
+                                                           ('supervisor.removeProcessGroup', [name]), ('supervisor.removeProcessGroup', [name])],
+                                     started=rng.choice([('multi',), (), ('multi', 'pool', 'plain')]))
+    # ---- random sequences
+    for _ in range(ctx.n(40, 600)):
+        lines += groups_case(ctx, rng.choice(GROUP_SCENARIOS), rng.choice([1, 1, 1, 2, 0, -1]), gen_group_ops(rng),
+                             started=rng.choice([('multi',), (), ('multi', 'pool'), ('fcok', 'plain')]))
+    seen, ops, il = set(), [], []
+    for op, line in lines:
+        if (op, line) not in seen:
+            seen.add((op, line)); ops.append(op); il.append(line)
+    ctx.count('groups:model-cases', len(ops))
+    if ops:
+        ctx.sample({'case': 'rpc addgroup', 'ops': ops[:4], 'impl': il[:4]})
+        ctx.correspond('addgroup', [('case rpc', ops)], [il])
+
+
+# =================================================================================================
 # the body collector and the header buffer vs the model (Model/Rpc.lean requestBody / requestHeader)
 # =================================================================================================
 def py_res_line(fn):
@@ -1621,6 +1889,7 @@ def run(ctx):
     run_e2e(ctx)
     run_frag(ctx)
     run_e2e_deferred(ctx)
+    run_groups(ctx)
     run_collect(ctx)
     run_frames(ctx)
 
@@ -1672,6 +1941,8 @@ def replay(ctx, data):
         base = wire_request(h, inp['method'], inp['params'])
         frag_deliver(ctx, inp['method'], inp['params'], inp.get('mood', 1), inp.get('cuts') or None, inp.get('http', '1.1'),
                      answer_key(base), prepare, inp.get('regression'))
+    elif part == 'groups':
+        groups_case(ctx, inp['scenario'], inp['mood'], [(m, p) for m, p in inp['ops']], tuple(inp.get('started', ('multi',))))
     elif part == 'e2e-session':
         session_case(ctx, [(m, p) for m, p in inp['reqs']], inp.get('mood', 1), plans=inp['plans'])
     elif part == 'e2e-deferred':
